@@ -3,6 +3,7 @@ package main
 import (
 	"fmt"
 	"go/ast"
+	"go/token"
 	"go/types"
 	"strings"
 )
@@ -242,6 +243,23 @@ func runC16(c *Ctx) {
 		}
 		recvs := f.AfterComm(isRecv)
 		bad := len(recvs) == 0 || len(notOK) == 0
+		// `for task := range ch`: every iteration starts with a successfully received task
+		var rangeLoops []loopInfo
+		for _, l := range f.Loops() {
+			if b := f.LoopBound(l); strings.HasPrefix(b, "chan:") && strings.HasSuffix(b, ".dispatcherChan") {
+				if _, isRange := l.Stmt.(*ast.RangeStmt); isRange {
+					rangeLoops = append(rangeLoops, l)
+				}
+			}
+		}
+		if len(rangeLoops) > 0 && len(recvs) == 0 {
+			bad = false
+			for _, l := range rangeLoops {
+				if _, skips := f.IterationSkips(l, handled); skips {
+					bad = true
+				}
+			}
+		}
 		for _, rp := range recvs {
 			if _, found := f.reach(rp, &searchOpts{AvoidNode: handled, AvoidEdge: func(e Edge) bool { return exempt[e] }}, func(pt Point, atExit bool) bool {
 				if atExit {
@@ -337,14 +355,24 @@ func runC16(c *Ctx) {
 			}
 			// exactly workerCount signals
 			okSig := false
-			ast.Inspect(fd.Body, func(n ast.Node) bool {
-				if rs, ok := n.(*ast.RangeStmt); ok && fieldSel(info, rs.X, "workerCount") && len(rs.Body.List) == 1 {
-					if s, ok := rs.Body.List[0].(*ast.SendStmt); ok && fieldSel(info, s.Chan, "shutdownSignal") {
+			// a loop (any form) counting up to workerCount whose every iteration sends one signal
+			isSend := func(n ast.Node) bool {
+				s, ok := n.(*ast.SendStmt)
+				return ok && fieldSel(info, s.Chan, "shutdownSignal")
+			}
+			for _, l := range f.Loops() {
+				if b := f.LoopBound(l); strings.HasPrefix(b, "count:") && strings.HasSuffix(b, ".workerCount") {
+					sends := 0
+					for _, sp := range f.Find(isSend) {
+						if f.InLoopBody(l, sp) {
+							sends++
+						}
+					}
+					if _, skips := f.IterationSkips(l, isSend); sends == 1 && !skips {
 						okSig = true
 					}
 				}
-				return true
-			})
+			}
 			capOK := false
 			for _, ofd := range p.AllFuncDecls(pkg) {
 				if ofd.Body == nil {
@@ -397,23 +425,48 @@ func runC16(c *Ctx) {
 			r.Unresolved("group/transitions", key, "method not found")
 			continue
 		}
-		var lit *ast.FuncLit
+		// the subscriber: a function literal or a method value / named function of the package
+		var subBody *ast.BlockStmt
+		var subPos token.Pos
+		var subParams []string
 		ast.Inspect(fd.Body, func(n ast.Node) bool {
 			if cl, ok := n.(*ast.CallExpr); ok && callNamed("Subscribe")(cl) && len(cl.Args) == 1 {
-				if l, ok := cl.Args[0].(*ast.FuncLit); ok {
-					lit = l
+				if b, pos := callableBody(p, info, cl.Args[0]); b != nil {
+					subBody, subPos = b, pos
+					var ft *ast.FuncType
+					switch x := ast.Unparen(cl.Args[0]).(type) {
+					case *ast.FuncLit:
+						ft = x.Type
+					default:
+						if fn, _ := info.Uses[selIdent(x.(ast.Expr))].(*types.Func); fn != nil {
+							if hd := p.decls().byFunc[fn.Origin()]; hd != nil {
+								ft = hd.Type
+							}
+						}
+					}
+					if ft != nil {
+						for _, fl := range ft.Params.List {
+							for _, nm := range fl.Names {
+								subParams = append(subParams, nm.Name)
+							}
+						}
+					}
 				}
 			}
 			return true
 		})
-		if lit == nil {
-			r.Fail("group/transitions", key, p.posStr(fd.Pos()), "the child counter is not subscribed")
+		if subBody == nil || len(subParams) != 2 {
+			r.Fail("group/transitions", key, p.posStr(fd.Pos()), "the child counter is not subscribed with a (old, new) callback")
 			continue
 		}
+		lit := struct {
+			Body *ast.BlockStmt
+			pos  token.Pos
+		}{subBody, subPos}
 		checkMirrorSubscriptionLives(r, p, pkg, info, fd, key)
 		lf := newFuncCFG(p, info, lit.Body, key+"$subscriber")
-		oldZero := lf.RelEdges(func(rel Rel) bool { return rel.Op == "==" && rel.L == "0" && rel.R == "oldValue" })
-		newZero := lf.RelEdges(func(rel Rel) bool { return rel.Op == "==" && rel.L == "0" && rel.R == "newValue" })
+		oldZero := lf.RelEdges(func(rel Rel) bool { return rel.Op == "==" && rel.L == "0" && rel.R == subParams[0] })
+		newZero := lf.RelEdges(func(rel Rel) bool { return rel.Op == "==" && rel.L == "0" && rel.R == subParams[1] })
 		incs := lf.Find(fieldCallN("PendingChildrenCounter", "Increase"))
 		decs := lf.Find(fieldCallN("PendingChildrenCounter", "Decrease"))
 		ok := len(incs) == 1 && len(decs) == 1
@@ -432,9 +485,9 @@ func runC16(c *Ctx) {
 			}
 		}
 		if ok {
-			r.Pass("group/transitions", key, p.posStr(lit.Pos()), "0->n increases and n->0 decreases the group's pending-children counter, nothing else does")
+			r.Pass("group/transitions", key, p.posStr(lit.pos), "0->n increases and n->0 decreases the group's pending-children counter, nothing else does")
 		} else {
-			r.Fail("group/transitions", key, p.posStr(lit.Pos()), "the subscriber must map exactly oldValue==0 to Increase and newValue==0 to Decrease")
+			r.Fail("group/transitions", key, p.posStr(lit.pos), "the subscriber must map exactly oldValue==0 to Increase and newValue==0 to Decrease")
 		}
 	}
 	if fd := p.FuncDecl(pkg, "Group", "WaitChildren"); fd != nil {
